@@ -107,6 +107,19 @@ func (p *Parser) getAlignmentInfo() alignmentInfo {
 	return ret
 }
 
+// runeOffset returns the byte offset of the n-th character of s (or
+// len(s) if s has fewer characters).
+func runeOffset(s string, n int) int {
+	off := 0
+
+	for i := 0; i < n && off < len(s); i++ {
+		_, size := utf8.DecodeRuneInString(s[off:])
+		off += size
+	}
+
+	return off
+}
+
 func wrapText(s string, l int, prefix string) string {
 	var ret string
 
@@ -122,14 +135,15 @@ func wrapText(s string, l int, prefix string) string {
 
 		line = strings.TrimSpace(line)
 
-		for len(line) > l {
+		// Widths are counted in characters, never split inside one
+		for utf8.RuneCountInString(line) > l {
 			// Try to split on space
 			suffix := ""
 
-			pos := strings.LastIndex(line[:l], " ")
+			pos := strings.LastIndex(line[:runeOffset(line, l)], " ")
 
 			if pos < 0 {
-				pos = l - 1
+				pos = runeOffset(line, l-1)
 				suffix = "-\n"
 			}
 
@@ -210,7 +224,9 @@ func (p *Parser) writeHelpOption(writer *bufio.Writer, option *Option, info alig
 		}
 	}
 
-	written := line.Len()
+	// The description column is computed in characters, so count what
+	// was written in characters as well
+	written := utf8.RuneCount(line.Bytes())
 	line.WriteTo(writer)
 
 	if option.Description != "" {
@@ -450,7 +466,7 @@ func (p *Parser) WriteHelp(writer io.Writer) {
 					wr.WriteString(argPrefix)
 
 					// Space between "arg:" and the description start
-					descPadding := strings.Repeat(" ", descStart-len(argPrefix))
+					descPadding := strings.Repeat(" ", descStart-utf8.RuneCountInString(argPrefix))
 					// How much space the description gets before wrapping
 					descWidth := aligninfo.terminalColumns - 1 - descStart
 					// Whitespace to which we can indent new description lines
